@@ -124,18 +124,20 @@ impl Record {
     /// # Ok::<_, std::io::Error>(())
     /// ```
     pub fn end(&self) -> io::Result<Position> {
-        let Some(start) = self.variant_start().transpose()? else {
-            todo!();
-        };
+        // A missing start position is a telomeric breakend, which is placed at the first position
+        // (see `vcf::variant::Record::variant_end`).
+        let start = self.variant_start().transpose()?.unwrap_or(Position::MIN);
 
         let len = self.rlen()?;
 
-        start.checked_add(len - 1).ok_or_else(|| {
-            io::Error::new(
-                io::ErrorKind::InvalidData,
-                "calculation of the end position overflowed",
-            )
-        })
+        len.checked_sub(1)
+            .and_then(|n| start.checked_add(n))
+            .ok_or_else(|| {
+                io::Error::new(
+                    io::ErrorKind::InvalidData,
+                    "calculation of the end position overflowed",
+                )
+            })
     }
 
     /// Returns the quality score.
